@@ -126,10 +126,22 @@ func r10a(c *an.Ctx) {
 		}
 	}
 	ok := len(drops) >= 3
+	var extra []string
 	for _, p := range drops {
 		if !(an.Dominates(posA[0], p) && eventIs(p.Block(), "STOP_ACTIVITY")) {
 			ok = false
 		}
+		// "gone afterwards, however the run ends": the drop may depend on nothing but the event being STOP_ACTIVITY
+		for _, a := range an.Atoms(p.Block()) {
+			if a.Op == token.EQL && a.Y != nil && isFieldNamed(a.X, "Event") {
+				continue
+			}
+			ok = false
+			extra = append(extra, c.PosStr(atomPos(a)))
+		}
+	}
+	if len(extra) > 0 {
+		c.Ob(key+"|dropped-unconditionally", posA[0].Pos(), false, "dropping the run number at after_STOP_ACTIVITY depends on an additional condition (at %v): when it does not hold (e.g. a late hook failed) the run number of the finished run stays visible", extra)
 	}
 	c.Ob(key+"|dropped-after-hooks", posA[0].Pos(), ok, "the run number and its variables must stay until all after_STOP_ACTIVITY hooks have run, and be dropped only then (%d drops)", len(drops))
 	// and the number is never dropped in any other callback
